@@ -867,12 +867,12 @@ def oracle(case, obs):
         return v
     if k in ("load", "pop") or (k == "deep" and case["via"] != "stream"):
         o = obs["o"]
-        if o["r"] == "exc" and o["e"] == "RecursionError":
-            return [{"key": "recursion-error", "what": f"tnetstring {case.get('via', k)} raised RecursionError on nesting depth beyond the interpreter budget {obs['depth']}"}]
+        # bare tnetstring level: RecursionError on nesting beyond the stack budget is its (modelled)
+        # behaviour; the property speaks about FlowReader, where it must become a read error
         if k == "pop" or case.get("via") == "pop":
-            ok = o["r"] == "val" or (o["r"] == "exc" and o["e"] in ("ValueError", "TypeError"))
+            ok = o["r"] == "val" or (o["r"] == "exc" and o["e"] in ("ValueError", "TypeError", "RecursionError"))
         else:
-            ok = o["r"] in ("val", "eof") or o["e"] in ("ValueError", "TypeError", "IndexError")
+            ok = o["r"] in ("val", "eof") or o["e"] in ("ValueError", "TypeError", "IndexError", "RecursionError")
         if not ok:
             v.append({"key": "tnet-exception-" + o.get("cls", "?"), "what": f"tnetstring.{k} raised {o.get('cls')} on {case.get('data', '')[:120]}"})
         if o["r"] == "val":
